@@ -289,6 +289,26 @@ func c03ConfigHop(c *Ctx, f *ssa.Function) {
 	rule := "destination"
 	tos := w.callsIn(f, "(*Message).GetTo")
 	frs := w.callsIn(f, "(*PreConfigRoute).FindRoute")
+	if len(tos) == 1 && len(frs) == 0 {
+		if sp := c03InlineLookupSpec(w); sp != nil {
+			// the table is consulted by a body merged into this function: key, table, order and the result permutation are
+			// decided on that body by the lookup rules (precedence, run with this function's result order)
+			n := 0
+			eachInstr(f, func(in ssa.Instruction) {
+				if lk, ok := in.(*ssa.Lookup); ok && lk.CommaOk && sp.isKey(lk.Index) {
+					if b, isL := isLoadOf(lk.X, "PreConfigRoute.items"); isL && sp.isTable(b) {
+						n++
+					}
+				}
+			})
+			c.check(n == 1, rule, "ByConfig/key", w.pos(f.Pos()), "the static route table of the proxy is consulted with the host of the message's To URI (lookup body merged into the hop function; its order and results are decided under precedence)", "the merged lookup body is not keyed by GetHost() of the message's To header on p.preConfigRoute")
+			for _, cs := range append(tos, w.callsIn(f, "(*To).GetHost")...) {
+				ok, why := w.errPropagated(f, cs.In)
+				c.check(ok, rule, "ByConfig/"+w.calleeName(cs.In)+"-error", w.ipos(cs.In), "failure yields no static hop", "failure of "+w.calleeName(cs.In)+" does not yield an error: "+why)
+			}
+			return
+		}
+	}
 	if len(tos) != 1 || len(frs) != 1 {
 		c.bad(rule, "ByConfig/lookups", w.pos(f.Pos()), "expected one GetTo() and one FindRoute()")
 		return
